@@ -240,6 +240,67 @@ def run(ctx):
             elif f2[1] == f1[1] or f2[2] != "clean2(10)clean2(1)" or f3[1] != f2[1] or f3[2] != "clean2(10)clean2(1)":
                 res.violations.append({"what": "editing a function / a variable of an accepted sub-module, reached through the package that re-exports them, did not change "
                                                "the signature / value: %s -> %s -> %s" % (f1, f2, f3), "input": case, "kf": None})
+        # module names that extend an accepted name as strings without being its sub-modules (flows / flows_vendor): (1) a data
+        # function of the non-accepted one, called from an accepted pipeline during an evaluation, is refused with a DDS error
+        # naming the module and not run; (2) accepting the shorter name after the longer one leaves the longer one accepted
+        for variant in ("extends_accepted_name", "unrelated_name"):
+            for p in list(_accepted_packages):
+                if p not in before:
+                    _accepted_packages.discard(p)
+            root = w.unique("c14s")
+            vend = (root + "_vendor") if variant == "extends_accepted_name" else w.unique("c14v")
+            w.write_module(vend, "import dds\nfrom harness.c14 import EXEC_LOG\n\n@dds.data_function('/vend/q')\ndef dq():\n    EXEC_LOG.append('dq')\n    return 'dq'\n", accept=False)
+            dds.accept_module(root)
+            modp = w.write_module(root, "import dds\nimport %s as vendor\n\ndef inner():\n    return 'inner'\n\ndef top():\n    return dds.keep('/s/inner', inner) + vendor.dq()\n" % vend, accept=False)
+            case = {"accepted": ["ROOT"], "non_accepted_module": vend.replace(root, "ROOT"), "caller": "def top(): return dds.keep('/s/inner', inner) + vendor.dq()"}
+            res.evaluations += 1
+            res.nontrivial("nested refusal " + variant)
+            res.count("e2e_nested_refusal")
+            del EXEC_LOG[:]
+            store.synced.clear()
+            try:
+                out = ("returned", dds.eval(modp.top))
+            except DDSException as e:
+                out = ("dds_error", str(e))
+                ws.reset_dds_state()
+            except BaseException as e:
+                out = ("exc", type(e).__name__ + ": " + str(e)[:100])
+                ws.reset_dds_state()
+            if out[0] != "dds_error" or vend not in out[1] or EXEC_LOG or store.synced:
+                res.violations.append({"what": "a data function of a non-accepted module (%s) called during an evaluation of accepted code is not refused with a DDS error "
+                                               "naming the module: %s (its body ran: %s, paths committed: %s)" % (variant, out[:1] + (out[1][:160],), bool(EXEC_LOG), bool(store.synced)),
+                                       "input": case, "kf": None})
+        for p in list(_accepted_packages):
+            if p not in before:
+                _accepted_packages.discard(p)
+        root = w.unique("c14o")
+
+        def steps_src(v):
+            return "def h():\n    return 'h%d'\n" % v
+        w.write_module(root + "_steps", steps_src(1), accept=False)
+        dds.accept_module(root + "_steps")
+        dds.accept_module(root)
+        main_o = "import dds\nimport %s_steps as st\n\ndef top():\n    return st.h()\n" % root
+        modo = w.write_module(root, main_o, accept=False)
+        res.evaluations += 1
+        res.nontrivial("acceptance order with prefix names")
+        res.count("e2e_prefix_named_acceptance")
+
+        def sig_o():
+            store.synced.clear()
+            try:
+                v = dds.keep("/po", modo.top)
+                return ("ok", store.synced[-1]["/po"], v)
+            except BaseException as e:
+                ws.reset_dds_state()
+                return ("exc", type(e).__name__, str(e)[:160])
+        o1 = sig_o()
+        w.rewrite_module(root + "_steps", steps_src(2))
+        modo = w.rewrite_module(root, main_o)
+        o2 = sig_o()
+        if o1[0] != "ok" or o2[0] != "ok" or o1[1] == o2[1] or o2[2] != "h2":
+            res.violations.append({"what": "accept_module('X_steps') followed by accept_module('X'): an edit of a function of X_steps does not change the signature / value "
+                                           "of its caller: %s -> %s" % (o1, o2), "input": {"accepted_in_order": ["ROOT_steps", "ROOT"], "caller": main_o.replace(root, "ROOT")}, "kf": None})
     for p in list(_accepted_packages):
         if p not in before:
             _accepted_packages.discard(p)
